@@ -1,4 +1,5 @@
 SPECIFICATION Spec
-CONSTANT Mutant = "allowed_not_asserted"
+CONSTANTS Mutant = "allowed_not_asserted"
+  Full = FALSE
 INVARIANTS InvTypes InvSignature InvUnsigned InvAlgKey InvAlgAllowed InvIssuer InvAudience InvScopes InvValidity InvKidUnique InvMerge InvRefines InvVerdict
 CHECK_DEADLOCK FALSE
